@@ -174,24 +174,34 @@ func knownClass(c Case, typ reflect.Type, f *evid.Failure, inf info) string {
 		return ""
 	}
 	doc := c.Docs[inf.failedDoc]
-	if f.Class != "panic" && hasMultiEmbed(typ, map[reflect.Type]bool{}) {
-		return clsEmbedDepth
-	}
-	if hasFoldName(typ, map[reflect.Type]bool{}) || jgen.HasFoldRune(string(doc)) || bytes.Contains(doc, []byte(`\u212a`)) || bytes.Contains(doc, []byte(`\u017f`)) {
-		return clsUniFold
+	// every class whose predicate matches, in order; the first one that is still listed as known explains the failure
+	var cands []string
+	if hasMultiEmbed(typ, map[reflect.Type]bool{}) {
+		cands = append(cands, clsEmbedDepth)
 	}
 	if hasStringOnNumber(typ, map[reflect.Type]bool{}) {
-		return clsStrNumber
+		cands = append(cands, clsStrNumber)
+	}
+	if hasFoldName(typ, map[reflect.Type]bool{}) || jgen.HasFoldRune(string(doc)) || bytes.Contains(doc, []byte(`\u212a`)) || bytes.Contains(doc, []byte(`\u017f`)) {
+		cands = append(cands, clsUniFold)
 	}
 	switch f.Class {
 	case "value":
 		if hasPtrPtr(typ, map[reflect.Type]bool{}) && bytes.Contains(doc, []byte("null")) {
-			return clsPtrPtrNull
+			cands = append(cands, clsPtrPtrNull)
 		}
 	case "rejects-valid":
 		if hasIntKeyMap(typ, map[reflect.Type]bool{}) && oddIntKey.Match(unescapeKeys(doc)) {
-			return clsIntKeyForm
+			cands = append(cands, clsIntKeyForm)
 		}
+	}
+	for _, cls := range cands {
+		if evid.KnownActive(cls) {
+			return cls
+		}
+	}
+	if len(cands) > 0 {
+		return cands[0]
 	}
 	return ""
 }
